@@ -482,4 +482,23 @@ def SetEq (a b : List Tup) : Prop := ∀ t, t ∈ a ↔ t ∈ b
 
 def setEqb (a b : List Tup) : Bool := a.all (b.contains ·) && b.all (a.contains ·)
 
+/-! ### decidable predicates on histories used by the theorems -/
+
+def clausesNow (s : St) (n : Name) : List Clause := (aget s.catalog n).getD []
+
+def factsDb (s : St) (r : Name) : List Tup := (aget s.facts r).getD []
+
+/-- The API's own contract for one step, checked in the state the step is applied to: only a
+    relation that currently has clauses is materialised, and with its complete current extension;
+    a rule head carries no stored tuples. -/
+def stepWellUsed (s : St) : Step → Bool
+  | .mat n ar => !(clausesNow s n).isEmpty && setEqb (answer (fresh s) ⟨n, allVars ar⟩) (fresh s n)
+  | .reg c => (factsDb s c.head.rel).isEmpty
+  | .rep n _ c => c.head.rel == n && (factsDb s n).isEmpty
+  | _ => true
+
+def wellUsed : St → List Step → Bool
+  | _, [] => true
+  | s, st :: l => stepWellUsed s st && wellUsed (step codeAutoMat s st).1 l
+
 end ILV.C18
